@@ -102,7 +102,7 @@ Theorem C11_shared_entries :
     NoDup (d_shared src m s) /\
     forall c sb, In (c, sb) (d_shared src m s) <->
       s_share sb <> [] /\ sp_get (c, s_share sb, s_filter sb) (spec_run ops) = Some sb /\
-      lm (split (m_topic m)) (split (s_filter sb)) = true /\ ~ (s_nl sb = true /\ c = src).
+      topic_match (m_topic m) (s_filter sb) = true /\ ~ (s_nl sb = true /\ c = src).
 Proof. exact shared_spec. Qed.
 Print Assumptions C11_shared_entries.
 
@@ -466,13 +466,19 @@ Example C01_empty_topic_reaches_everyone :
     OSend 2 (KPublish false 0 false [] [104; 105] 0 [PSubId 9])]].
 Proof. vm_compute. repeat split. Qed.
 
-(* SECOND FINDING (why `sub_matches` uses level matching only for shared subscriptions): the store
-   applies MQTT-4.7.2-1 ("a filter starting with a wildcard does not match a topic starting with $")
-   to the non-shared tries only.  Client a holds "#" and "$share/g/#"; b publishes "$SYS/x": the plain
-   "#" rightly does not match, the shared "#" does, and a receives the message.  Reproduced on the real
-   broker ("$share/g/#" receives 30 09 00 06 "$SYS/x" 79; "#" receives nothing). *)
-Example C11_shared_wildcard_matches_dollar_topic :
+(* SECOND FINDING, REPAIRED (`sub_matches` used to be level matching only for shared subscriptions): the
+   store applied MQTT-4.7.2-1 ("a filter starting with a wildcard does not match a topic starting with $")
+   by choosing between the user and the system trie, i.e. to non-shared subscriptions only, and
+   "$share/g/#" received "$SYS/x" (reproduced on the real broker before the repair: "$share/g/#" received
+   30 09 00 06 "$SYS/x" 79).  getMatchedTopicFilter now follows only the literal first level for a topic
+   name beginning with '$', in every trie, and `sub_matches` is topic_match for shared subscriptions too.
+   Client a holds "#" and "$share/g/#"; b publishes "$SYS/x": neither matches and nothing is sent (first
+   two equations).  When a also holds "$share/g/$SYS/#" (subscription identifier 5) the same publication
+   reaches a, once, through that subscription (last two). *)
+Example C11_shared_wildcard_skips_dollar_topic :
   topic_match ex_sys_x ex_hash = false /\
-  snd (run ex_state2 [ESend 2 (KPublish false 0 false ex_sys_x [121] 0 [])]) =
-  [[OSend 1 (KPublish false 0 false ex_sys_x [121] 0 [])]].
-Proof. vm_compute. split; reflexivity. Qed.
+  snd (run ex_state2 [ESend 2 (KPublish false 0 false ex_sys_x [121] 0 [])]) = [[]] /\
+  topic_match ex_sys_x ex_sys_hash = true /\
+  snd (run ex_state3 [ESend 2 (KPublish false 0 false ex_sys_x [121] 0 [])]) =
+  [[OSend 1 (KPublish false 0 false ex_sys_x [121] 0 [PSubId 5])]].
+Proof. vm_compute. repeat split. Qed.
